@@ -28,9 +28,15 @@ type zzTok struct {
 
 var zzJSONStreams = map[*json.Decoder]*[]json.Token{}
 
+// zzJSONFailAfter: the decoder's source fails (instead of ending) once the tokens are used up
+var zzJSONFailAfter = map[*json.Decoder]error{}
+
 func zzJSONToken(d *json.Decoder) (json.Token, error) {
 	q := zzJSONStreams[d]
 	if q == nil || len(*q) == 0 {
+		if e := zzJSONFailAfter[d]; e != nil {
+			return nil, e
+		}
 		return nil, io.EOF
 	}
 	t := (*q)[0]
@@ -402,4 +408,42 @@ func C04JsonSelect() {
 		sp.Release(n)
 	}
 	zz.Fail("no terminal result within the read bound")
+}
+
+
+// C16Json: the JSON stream reader over a source that delivers the first tokens of the document
+// (or all of them) and then fails instead of ending: the failure is never turned into a clean
+// EOF; results before it equal the fault-free run's.
+func C16Json() {
+	v := zzValue(zz.Param("D", 1), zz.Param("W", 2))
+	xp := []string{".", "/*"}[zz.NondetChoice("xpath", 2)]
+	toks := v.tokens(nil)
+	cut := zz.NondetChoice("failAfterTokens", len(toks)+1)
+	var data []byte
+	if !zz.Symbolic() {
+		data = v.text(nil)
+	}
+	src := &zzChunkReader{data: data, failAt: -1}
+	if !zz.Symbolic() {
+		// natively: fail after the whole text (the token-level cut is exercised symbolically only)
+		src.failAt, src.ioErr = len(data), zzIOErr
+	}
+	sp, err := NewJSONStreamReader(src, xp)
+	zz.Assume(err == nil)
+	if zz.Symbolic() {
+		part := append([]json.Token{}, toks[:cut]...)
+		zzJSONStreams[sp.d] = &part
+		zzJSONFailAfter[sp.d] = zzIOErr
+	}
+	for i := 0; i < len(toks)+2; i++ {
+		n, err := sp.Read()
+		if err == nil {
+			sp.Release(n)
+			continue
+		}
+		zz.Cover("failed")
+		zz.Assert(err != io.EOF, "a failing source never ends in a clean EOF")
+		return
+	}
+	zz.Fail("no error within the read bound")
 }
